@@ -407,6 +407,7 @@ fn check_names(acc: &mut Acc, tier: Tier) -> u64 {
             acc.count("executions", 1);
             acc.count("names_checked", 1);
             let want = name_ok(name);
+            let accepted = matches!(r, Ok(Ok(())));
             let problem = match r {
                 Err(p) => Some(format!("panicked: {p}")),
                 Ok(Ok(())) if !want => Some("accepted, but it is reserved or not a well-formed identifier".to_string()),
@@ -417,6 +418,29 @@ fn check_names(acc: &mut Acc, tier: Tier) -> u64 {
                 },
                 Ok(Ok(())) => None,
             };
+            // an accepted function whose name can be written in rule text must be reached from there
+            if want && via == "with_function" && accepted && crate::spec::rv::is_ident(name) && name.len() <= 40 {
+                let seen = catch(|| {
+                    let e = Expr::parse(&format!("{name}(i0)")).map_err(|e| e.to_string())?;
+                    let rs = ruleset()
+                        .with_rule(Rule::new("call", BTreeMap::new(), e))
+                        .and_then(|b| b.with_function(func(leaked, 4242)))
+                        .map_err(|e| e.to_string())?
+                        .build();
+                    let out = block_on(rs.evaluate_value(&Value::None))?.map_err(|e| e.to_string())?;
+                    Ok::<_, String>(out.into_iter().next().map(|o| o.value.map(|v| RV::from_value(&v)).map_err(|e| e.to_string())))
+                });
+                acc.count("names_called_from_rule_text", 1);
+                match seen {
+                    Ok(Ok(Some(Ok(RV::Int(4242))))) => {}
+                    other => acc.violation(Violation {
+                        sig: format!("name-not-invocable-from-text/{name}"),
+                        what: format!("function {name:?} is accepted by the builder, but the rule text `{name}(i0)` does not reach it: {other:?}"),
+                        case: json!({"kind": "name", "name": name, "via": "text"}),
+                        size: name.len(),
+                    }),
+                }
+            }
             acc.outcome(format!("name:{}", if want { "accept" } else { "refuse" }));
             if let Some(d) = problem {
                 acc.violation(Violation {
@@ -498,6 +522,52 @@ pub fn run(tier: Tier) -> i32 {
                 other => acc.violation(Violation { sig: "wide-builder/evaluate".into(), what: format!("evaluating the 30-rule ruleset failed: {:?}", other.map(|r| r.map(|x| x.map(|o| o.len()).map_err(|e| e.to_string())))), case: json!({"kind": "wide"}), size: 30 }),
             },
             other => acc.violation(Violation { sig: "wide-builder/build".into(), what: format!("building 30 rules / functions / symbols failed: {:?}", other.map(|r| r.map(|_| ()))), case: json!({"kind": "wide"}), size: 30 }),
+        }
+    }
+    // a symbol re-registered with a value that is `==` to the old one but not the same value
+    // (sign of zero, decimal scale, inside containers): the latest registration wins exactly
+    {
+        let d = |m: u128, s: u32| RV::Dec(RDec { neg: false, mant: m, scale: s });
+        let pairs: Vec<(RV, RV)> = vec![
+            (RV::float(0.0), RV::float(-0.0)),
+            (RV::float(-0.0), RV::float(0.0)),
+            (d(10, 1), d(100, 2)),
+            (d(100, 2), d(1, 0)),
+            (RV::List(vec![d(10, 1)]), RV::List(vec![d(100, 2)])),
+            (RV::map(&[("k", RV::float(0.0))]), RV::map(&[("k", RV::float(-0.0))])),
+            (RV::Int(1), RV::Int(1)),
+        ];
+        for (old, new) in &pairs {
+            for route in 0..4 {
+                acc.count("executions", 1);
+                let built = catch(|| {
+                    let mut b = ruleset().with_rule(Rule::new("sym", BTreeMap::new(), Expr::symbol("z"))).map_err(|e| e.to_string())?;
+                    let batch = |v: &RV| {
+                        let mut s = Symbols::default();
+                        s.insert("z", v.to_value());
+                        s.insert("other", Value::Int(0));
+                        s
+                    };
+                    b = match route {
+                        0 => b.with_symbol("z", old.to_value()).with_symbol("z", new.to_value()),
+                        1 => b.with_symbol("z", old.to_value()).with_symbols(batch(new)).map_err(|e| e.to_string())?,
+                        2 => b.with_symbols(batch(old)).map_err(|e| e.to_string())?.with_symbol("z", new.to_value()),
+                        _ => b.with_symbols(batch(old)).map_err(|e| e.to_string())?.with_symbols(batch(new)).map_err(|e| e.to_string())?,
+                    };
+                    let rs = b.build();
+                    let out = block_on(rs.evaluate_value(&Value::None))?.map_err(|e| e.to_string())?;
+                    Ok::<_, String>(out.into_iter().next().map(|o| o.value.map(|v| RV::from_value(&v)).map_err(|e| e.to_string())))
+                });
+                match built {
+                    Ok(Ok(Some(Ok(v)))) if v == *new => acc.outcome("symbol-latest-wins"),
+                    other => acc.violation(Violation {
+                        sig: format!("symbol-equal-but-different/{}/{route}", old.ty().name()),
+                        what: format!("symbol registered as {} and then as {} (route {route}): resolves to {other:?}", old.show(), new.show()),
+                        case: json!({"kind": "symbol-pair"}),
+                        size: route,
+                    }),
+                }
+            }
         }
     }
     // moderate size: n rules (n = 1..40), then a duplicate of each position must be refused; the
